@@ -1,5 +1,6 @@
 """Registry: which stages decide which property (see DESIGN.md section 5)."""
 from checklib import PROPS, make_prop, ES, GS, tlc_only_stage, refstore_stage
+from tracestages import TE, api_stage
 
 COMMON_ASSUME = [
     "the TLA+ transcription of RFC 9535 (spec/JPSemantics.tla) is faithful; anchored by the RFC's example tables as ASSUMEs (spec/RFCExamples.tla), reproduced from memory",
@@ -16,11 +17,11 @@ def slice_loop_stage(ev, tier, seed):
 
 
 NT = "non-trivial = the specification's nodelist is non-empty; distinct = distinct REPLAY lines"
-PROPS["C01"] = make_prop("C01", [ES("C01", "C01", "nodes"), ES("C01", "C11", "nodes"), ES("C01", "C05", "nodes")],
+PROPS["C01"] = make_prop("C01", [ES("C01", "C01", "nodes"), ES("C01", "C11", "nodes"), ES("C01", "C05", "nodes"), TE("C01", {"nodes", "outcome"})],
     "every (document, query) pair of universe C01 (strided by seed) driven through the evaluation machine; " + NT, COMMON_ASSUME)
-PROPS["C02"] = make_prop("C02", [ES("C02", "C01", "order"), ES("C02", "C11", "order")],
+PROPS["C02"] = make_prop("C02", [ES("C02", "C01", "order"), ES("C02", "C11", "order"), TE("C02", {"order"})],
     "as C01 but the result SEQUENCE is compared; " + NT, COMMON_ASSUME)
-PROPS["C03"] = make_prop("C03", [ES("C03", "C03", "paths")],
+PROPS["C03"] = make_prop("C03", [ES("C03", "C03", "paths"), TE("C03", {"paths"})],
     "member names over a hostile alphabet reached through every route kind; each result's path compared with the spec's NormalizedPath of the node found by address, equal-paths<=>same-node, and re-query of the reported path; " + NT, COMMON_ASSUME)
 PROPS["C04"] = make_prop("C04", [ES("C04", "C04", "nodes")],
     "all pairs of operand values x 6 operators x operand forms embedded as $[?lhs op rhs]; the child is selected iff the spec's Compare is true; " + NT, COMMON_ASSUME)
@@ -55,3 +56,7 @@ PROPS["C13"] = make_prop("C13", [GS("C13", "C13", "order,accept")],
 PROPS["C09"] = make_prop("C09", [lambda ev, tier, seed: refstore_stage(ev, "C09", tier, seed)],
     "histories of up to 2 (thorough 3) reads/writes through the Normalized Paths of EVERY location of the initial document and of locations that do not exist (missing name, index = len, name step on an array, index step on an object); member names include / ~ ~1 0 1 '' and (thorough) ' \\ \" LF; after every step the node address / the whole document is compared with the specification; non-trivial = the history touches an existing location",
     COMMON_ASSUME)
+
+PROPS["C08"] = make_prop("C08", [lambda ev, tier, seed: api_stage(ev, "C08", tier, seed)],
+    "every call of parse_json_path / query / query_with_path / query_only_path / js_path_process on (a) the Api machine's extreme inputs (9 kinds of nesting x depths 8..512, thorough 4096; integers and literals at +-(2^53-1), 2^53, the i64 limits, huge exponents; truncated strings), (b) a sample of the grammar machine's valid / near-miss / ill-typed sentences, (c) seeded random and mutated strings, executed in isolated worker processes; the recorded call/return trace must be a behaviour of Api.tla (no panic, no crash, no timeout, Err iff the string is invalid); distinct = cases",
+    COMMON_ASSUME + ["a hang is observed as 60 s without progress of the worker", "debug build with overflow checks on"])
